@@ -61,4 +61,10 @@ var targets = []Target{
 			"BinaryEncoding.DecodeInt64", "BinaryEncoding.DecodeDouble",
 			"BinaryProtocol.skipn", "BinaryProtocol.next_nopanic", "BinaryProtocol.skipstr"},
 	},
+	{
+		// C14: bucket function of the field-name trie (internal/caching/trie.go)
+		Module: "Gen_caching",
+		Dir:    "internal/caching",
+		Funcs:  []string{"ascii2Int", "DJBHash32"},
+	},
 }
